@@ -24,7 +24,7 @@ RULE = (
     '(quick: <= 4 voxels full, 5-6 voxels {0.05, blocked}); families on (3,3,3),(2,3,4),(3,4,5),(4,3,2): uniform, '
     '3-level pattern, wall with one gap for every wall plane/gap; x diagonal in {True, False} x all ordered '
     '(start, stop) admissible pairs x methods {dijkstra, bellman-ford, dijkstra-exp, simple, minmax-energy}; '
-    'percolation: 7 direction sets x all peak subsets of size <= 2; evaluation = one path query; distinct = '
+    'one volume object serves both neighbourhood modes; C / Fortran / transposed-view memory layouts; long-axis walls separating the sum criteria from minmax-energy; percolation: 7 direction sets x all peak subsets of size <= 2 and all orders of 3 peaks; path.sites re-read after the wrapped/fractional accessors; evaluation = one path query; distinct = '
     'distinct (grid, mode, start, stop, method, cost) outcomes'
 )
 LEVEL_TEXT = (
